@@ -17,13 +17,13 @@ Tasks
     RecordLayer._getCipherSettings / _getMacSettings / _getHMACMethod
     CipherSuite.canonicalCipherName / canonicalMacName
     TLSConnection._getPRFParams, mathtls.calc_key (PRF choice)
+    RecordLayer.calcTLS1_3PendingState / _calcTLS1_3KeyUpdate (HKDF hash, key length, 12-byte IV, factory)
     CipherSuite.filterForVersion / _filterSuites / filter_for_certificate / filter_for_prfs
     the twelve get*Suites wrappers
 """
 import z3
 
 import tlslite.recordlayer as RL
-import tlslite.mathtls as MT
 from tlslite import handshakesettings as HS
 from tlslite.constants import CipherSuite as CS
 
@@ -108,10 +108,6 @@ def describe(row):
 #                exchange the library does not implement must not be dispatched at all)
 
 from specs.suites import LISTS, SSL2_LISTS, OFFERED_BASES, WRAPPERS, CERT_ALGS, cert_allows   # noqa: shared with the concrete check
-
-
-def _kx(*names):
-    return lambda x: iana.kx_name(x) in names
 
 
 def member(lst, s):
